@@ -37,6 +37,16 @@ CLAIMED = {
              note="Structural half exhaustive up to 3 (quick) / 4 (thorough) operator nodes; concrete half on operand samples. Trusted: TLC, Python's own operator dispatch as the eager oracle.",
              technique="TLA+ model checking (TLC) of the expression compiler/stack machine + spec-to-code replay + TLC trace validation", design="5.9"),
  "C19": pk("Values.tla defines DeclaredDefault per field kind and Construct(cls, K); MC_Values enumerates every subset of fields overridden by keyword x override values over U_C19 (every field kind and default form, nested prototypes with their own defaults and overrides, mutable defaults); replay compares every attribute of Cls(**K), checks that two constructions share no mutable object, and that pack() is the layout of those values; TLC (Trace_Values) judges differing executions.", "5.19"),
+ "C15": dict(text="CodeCache.tla (sequential fragment): successive definitions of same-named classes over four declarations (two of them generating source of the same length, one under other options), from EVERY initial cache content (absent / complete of any declaration / any torn prefix / bytecode absent, valid or stale-but-stamp-equal), bytecode on or off; TLC checks that every definition installs its own code and that a cookie match implies identical code. Real side: all pairs and sampled triples of definitions incl. generation off/pack-only/changed options, in one process or a new process each, with all cache writes forced into the same mtime second or not, from seeded cache contents; after each definition the class and the classes defined earlier in the process are used on a discriminating input; plus two live definitions of different declarations interleaved at every pair of points.",
+             note="Exhaustive in the model within 2 (3) definitions; real sequences are enumerated (pairs) / sampled (triples). Stamp equality forced with os.utime. Trusted: TLC, the process harness (bind/cache_harness.py).",
+             technique="TLA+ model checking (TLC) of CodeCache.tla + real definitions in real processes on a real cache directory", design="5.15"),
+ "C16": dict(text="CodeCache.tla: processes x file system x crashes; TLC checks Inv_C16_Safe over every initial cache content, every interleaving of the file-system steps of two (three) processes defining identical or different same-named classes and a crash at every step. Behaviours of the specification (TLC -simulate with history) are forced action by action on real processes sharing a real cache directory, comparing the abstracted file system (owner by cookie, shape by compiling the content, bytecode present) after every action and every process's outcome; every crash point of a real cache update (between all file-system calls and after every k-th byte written) is followed by fresh definitions; all 2-pre-emption interleavings of two live definitions are executed.",
+             note="Exhaustive in the model; on real processes: TLC-simulated behaviours + enumerated crash points and context-bounded schedules. The pinned protocol is kept in the model as a switch (Repaired = FALSE) and is shown to violate the invariant. Trusted: TLC, the process harness.",
+             technique="TLA+ model checking (TLC) of CodeCache.tla + TLC behaviours forced on real processes (schedules, crash points)", design="5.16"),
+ "C17": dict(text="MC_Auto.tla: the descriptor's enabled flag, hidden field and tracked field under every history of New/SetTracked/SetDescribed/DelDescribed/Unpack/Pack for AutoLength of a byte string, AutoLength of a repeated field and Auto(fn); TLC checks Inv_C17_Read against the ghost 'value assigned since the last delete/construction/parse', Inv_C17_Pack and Prop_C17_PackKeepsRead exhaustively up to the history bound; every maximal history is executed on real packets under generic and generated code comparing the full projected state after every operation (attribute read, hidden slot, tracked value, pack result, no __dict__); longer random histories are recorded and validated by TLC (Trace_Auto).",
+             note="Exhaustive up to 6 (7) operations in the model, 3 (4) on real objects; random histories of 6..16 operations beyond. Trusted: TLC, the JSON exchange.",
+             technique="TLA+ model checking (TLC) of MC_Auto.tla + spec-to-code replay + TLC trace validation", design="5.17"),
+ "C20": pk("MC_Values over U_C20 (declarations with at/shift/aligned, the class-wide align option, Em, a described field, nested packets, lists, optionals, run-time selected references): p is built from K, q like p with exactly one field re-assigned (every field, every domain value, in place for default-constructed mutable values) or none; on real objects ==, !=, comparison with itself / None / another class, repr; two packets parsed from the same bytes; a parsed packet against a constructed, never-packed one; TLC (Trace_Values) evaluates C20_Total / C20_Structural / C20_ParsedEqual on the recorded visible values and results.", "5.20"),
 }
 
 NOT_YET = {}
